@@ -15,9 +15,10 @@ META = {
                    "values symbolic. z3 proves every output equal to the explicit formula on the observed subset only (posterior mean "
                    "and covariance, MLL divided by the observed count, per-point likelihood terms) and that no NaN shadow reaches an "
                    "output; both orders of switching policies on one model are run.",
-    "bounds": {"quick": "every NaN pattern for n<=3 (none ... all-but-one), single-output; batch (2,) with different patterns per element for the likelihood terms",
-               "thorough": "n<=4; multitask t=2"},
-    "outside": ["variational models with missing data (LMC) beyond the likelihood terms", "rounding"],
+    "bounds": {"quick": "every NaN pattern for n<=3 (none ... all-but-one), single-output; multitask exact GP (2 points x 2 tasks, per-entry patterns); batch (2,) with different patterns per element for the likelihood terms",
+               "thorough": "n<=4; multitask 2x2 and 2x3, nine per-entry patterns"},
+    "outside": ["variational models with missing data (LMC) beyond the likelihood terms", "multitask models with a Kronecker (real MultitaskKernel) "
+                "covariance: the multitask scenarios use a stub multitask kernel with an arbitrary joint covariance", "rounding"],
     "assumptions": ["reals for floats", "Cholesky without jitter"],
 }
 TIMEOUT_S = {"quick": 500, "thorough": 2400}
@@ -114,6 +115,119 @@ def exact(S, n, m, pattern, policy, cfg, second_policy):
         S.prove_eq(mll_t, ref, "MLL under mask = log N(y_obs) / (number of observed values)")
 
 
+class MTTableKernel(gpytorch.kernels.Kernel):
+    """stub MULTITASK kernel: inputs are integer point labels; the (label i, task a) entry is row perm[i * t + a] of the table
+    (interleaved layout, as MultitaskKernel produces). Everything around forward is the real code."""
+
+    def __init__(self, table, perm, t):
+        super().__init__()
+        self.table, self.perm, self.t = table, perm, t
+
+    def num_outputs_per_input(self, x1, x2):
+        return self.t
+
+    def forward(self, x1, x2, diag=False, **kw):
+        def pos(x):
+            i = x[..., 0].long()
+            f = (i.unsqueeze(-1) * self.t + torch.arange(self.t)).reshape(-1)
+            return self.perm[f]
+        p1, p2 = pos(x1), pos(x2)
+        Kt = self.table[p1][:, p2]
+        return Kt.diagonal() if diag else Kt
+
+
+class MTStubGP(gpytorch.models.ExactGP):
+    def __init__(self, x, y, lik, kernel, t):
+        super().__init__(x, y, lik)
+        self.mean_module = gpytorch.means.MultitaskMean(gpytorch.means.ConstantMean(), num_tasks=t)
+        self.covar_module = kernel
+
+    def forward(self, x):
+        return gpytorch.distributions.MultitaskMultivariateNormal(self.mean_module(x), self.covar_module(x))
+
+
+def multitask_exact(S, n, t, m, pattern, policy, second_policy=None, cfg=None, through_likelihood=False):
+    """multitask exact GP (n points x t tasks, targets with NaNs PER ENTRY): posterior and MLL = after deleting those entries"""
+    pat = np.array([[bool(int(c)) for c in row] for row in pattern.split("|")])
+    assert pat.shape == (n, t)
+    flat_miss = pat.reshape(-1)
+    obs = [f for f in range(n * t) if not flat_miss[f]]
+    mis = [f for f in range(n * t) if flat_miss[f]]
+    NT, MT = n * t, m * t
+    order = obs + mis + list(range(NT, NT + MT))
+    perm = torch.tensor([order.index(f) for f in range(NT + MT)])
+    N = NT + MT
+    x, xs = labels(0, n), labels(n, n + m)
+    y = S.randn(n, t)
+    Y = _sym_with_nan(S, y, "y", pat)
+    lik = gpytorch.likelihoods.MultitaskGaussianLikelihood(num_tasks=t, rank=0)
+    Gs, Gc = S.factor("g", N)
+    table = torch.zeros(N, N)
+    model = MTStubGP(x, y, lik, MTTableKernel(table, perm, t), t)
+    for p in model.parameters():
+        p.requires_grad_(False)
+    declare_params(S, model.mean_module, "mean_")
+    declare_params(S, lik, "lik_", scale=0.3)
+    no = len(obs)
+    with S.mode():
+        tn = as_sym_arr(SH.get(lik.task_noises)).reshape(-1)
+        gn = as_sym_arr(SH.get(lik.noise)).reshape(-1)[0]
+        J = Gs @ Gs.T
+        K = J.copy()
+        with torch.no_grad():
+            table.copy_(Gc @ Gc.T)
+        for f in range(NT):
+            pos = order.index(f)
+            sv = tn[f % t] + gn
+            K[pos, pos] = K[pos, pos] - sv
+            with torch.no_grad():
+                table[pos, pos] -= sv.c
+        SH.put(table, K, check=True)
+        mm = as_sym_arr(SH.get(model.mean_module(labels(0, n + m))))  # (n+m) x t
+        mflat = mm.reshape(-1)
+        outs = {}
+        model.eval(); lik.eval()
+        pols = [policy] + ([second_policy] if second_policy else [])
+        for pol in pols:
+            with gpytorch.settings.observation_nan_policy(pol), settings_ctx(cfg or {}):
+                out = S.must_not_raise("multitask prediction under policy %s" % pol, lambda: model(xs))
+                outs[pol] = (out.mean, out.covariance_matrix)
+                if through_likelihood:
+                    pred = lik(out)
+                    outs[pol + "+likelihood"] = (pred.mean, pred.covariance_matrix)
+        mll_t = None
+        if policy == "mask":
+            model.train(); lik.train()
+            mll_mod = gpytorch.mlls.ExactMarginalLogLikelihood(lik, model)
+            with gpytorch.settings.observation_nan_policy("mask"):
+                mll_t = S.must_not_raise("multitask MLL under mask", lambda: mll_mod(model(x), y))
+    Go = Gs[:no, :no]
+    Kso = K[NT:, :no]
+    Kss = K[NT:, NT:]
+    yo = np.array([Y.reshape(-1)[f] for f in obs], dtype=object)
+    mo = np.array([mflat[f] for f in obs], dtype=object)
+    r = (yo - mo).reshape(no, 1)
+    alpha = spd_solve(Go, r)
+    Bm = spd_solve(Go, Kso.T)
+    Mref = ((Kso @ alpha).reshape(-1) + mflat[NT:]).reshape(m, t)
+    Cref = Kss - Kso @ Bm
+    for pol, (mean_t, cov_t) in outs.items():
+        tag = "multitask policy=%s%s " % (pol, "" if pol.startswith(policy) else " (after %s on the same model)" % policy)
+        C = Cref
+        if pol.endswith("+likelihood"):
+            C = Cref.copy()
+            for f in range(MT):
+                C[f, f] = C[f, f] + tn[f % t] + gn
+        S.prove_eq(mean_t, Mref, tag + "posterior mean = conditional on the observed entries only")
+        S.prove_eq(cov_t, C, tag + "posterior covariance = conditional on the observed entries only")
+    if mll_t is not None:
+        z = tri_solve_lower(Go, r)
+        quad = np.sum(z * z)
+        logdet = sum((sym_log(Go[i, i]) for i in range(no)), Sym.const(0.0)) * Sym.const(2.0)
+        ref = (quad + logdet + Sym.const(no * LOG2PI)) * Sym.const(-0.5) / Sym.const(float(no))
+        S.prove_eq(mll_t, ref, "multitask MLL under mask = log N(y_obs) / (number of observed values)")
+
+
 def likelihood_terms(S, N, pattern, policy, batch):
     """expected_log_prob / log_marginal with NaN observations: observed entries as usual, missing entries contribute nothing"""
     bs = (batch,) if batch else ()
@@ -191,4 +305,10 @@ def scenarios(tier, seed):
         add("likelihood_terms", N=3, pattern="000", policy=policy, batch=0)
         add("likelihood_terms", N=3, pattern="010|001", policy=policy, batch=2)
         add("likelihood_terms", N=2, pattern="10|00", policy=policy, batch=2)
+    mt = ["00|00", "01|00", "10|01", "00|11"] if tier == "quick" else ["00|00", "01|00", "10|00", "10|01", "01|01", "00|11", "11|01", "01|11", "011|000"]
+    for pat in mt:
+        t = len(pat.split("|")[0])
+        add("multitask_exact", n=2, t=t, m=1, pattern=pat, policy="mask", second_policy="fill" if pat != "00|00" else None)
+        if pat != "00|00":
+            add("multitask_exact", n=2, t=t, m=1, pattern=pat, policy="fill", second_policy="mask")
     return out
